@@ -586,10 +586,15 @@ class Integer(Type):
     def set_restricted_to_range(self, minimum, maximum, has_extension_marker):
         self.has_extension_marker = has_extension_marker
 
+        # An extensible constraint is not OER-visible: the type is
+        # encoded as an unconstrained (signed) integer.
+        if has_extension_marker:
+            return
+
         if minimum != 'MIN':
             self.signed = (minimum < 0)
 
-        if minimum == 'MIN' or maximum == 'MAX' or has_extension_marker:
+        if minimum == 'MIN' or maximum == 'MAX':
             return
 
         if minimum >= 0:
